@@ -822,6 +822,21 @@ def emit_loops(tree):
   dr = _body(find_def(tree, '_device_put_replicated'))
   ok = ok and [_src(x) for x in dr] == ['return _device_put_sharded([x] * len(devices), devices)']
   out.append('Definition pmap_inputs_are_stacked_copies : bool := %s.' % ('true' if ok else 'false'))
+  # no source of run-to-run / process-to-process nondeterminism anywhere in the module
+  bad = []
+  for node in ast.walk(tree):
+    if isinstance(node, ast.Call):
+      try:
+        f = dotted(node.func)
+      except Unsupported:
+        continue
+      if f in ('hash', 'id', 'set', 'frozenset') or f.split('.')[0] in ('time', 'uuid', 'random', 'secrets') or \
+          f.startswith(('np.random', 'numpy.random', 'os.environ', 'os.getenv', 'os.urandom')):
+        bad.append(f)
+    elif isinstance(node, ast.Attribute) and _src(node) == 'os.environ':
+      bad.append('os.environ')
+  out.append('(* calls to hash / id / set / time / uuid / random / os.environ in the module: %s *)\n'
+             'Definition module_has_no_nondeterminism_source : bool := %s.' % (sorted(set(bad)) or 'none', 'false' if bad else 'true'))
   return '\n\n'.join(out)
 
 
